@@ -587,6 +587,9 @@ _SEED_RULE = {
     "C13-variational-compress-mutates-mpo": "effect-bound", "C14-bak-removed-before-write": "crash-points", "C15-simplify-filters-before-merge": "filter-after-merge",
     "C16-holstein-linear-coupling-omega": "holstein-square", "C16-multielectron-branches-merged": "multi-electron", "C17-stacked-drops-2e-orbitals": "qc-term-coverage",
     "C17-jw-sign-parity-or": "jw-sign-parity", "C19-cash-karp-nodes-swapped": "row-sum",
+    "C04-svd-qn-skips-tiny-blocks": "svd-blocks", "C05-compress-ret-s-normalises-in-place": "bond-index", "C06-apply-moves-centre-to-last-site": "qn-align",
+    "C08-tree-arpack-smallest-magnitude": "eigen-selection", "C10-cmf-midpoint-full-imaginary-step": "midpoint-reentry", "C14-periodic-dump-only-on-info-steps": "periodic-dump",
+    "C16-ti1d-drops-coinciding-images": "model-terms", "C17-int-to-h-drops-spin-delta": "spin-orbital-integrals",
 }
 _sd = _os.path.join(_V, "seeded")
 for _name in sorted(_os.listdir(_sd)):
